@@ -1,20 +1,45 @@
 """C15 - a node's path identifies that node; paths create what they name"""
-from props import comps_ytext as Y, comps_paths, oracles
+from props import comps_ytext as Y, comps_paths, comps_pathmodel, oracles
 
 PID = "C15"
 LEVEL = "proof"
 
 
 def components():
-    return [Y.PathQ()]
+    return [Y.PathQ(), comps_pathmodel.PathModel()]
 
 
 def oracles_():
     return [Y.PathQRT(), oracles.Paths(), comps_paths.PathsOps()]
 
 
+TRUSTED = [
+    "pathmodel: the compiled schema and the parsed data tree are read from libyang itself (impl/t_pathmodel.c dumps "
+    "module, name, node type, LYS_KEYLESS / LYS_CONFIG_W / LYS_KEY / LYS_PRESENCE and canonical value of every node in "
+    "lys_getnext() / sibling order); the model takes these dumps as input, so schema compilation, the data parsers and "
+    "lyd_insert_node() ordering are trusted inputs of the path round trip, not verified by it",
+    "pathmodel: pointer equality of schema nodes is modelled as equality of (module name, node name) among the children "
+    "of one schema parent; hash-table lookups (children_ht) are modelled by the linear search they fall back to",
+]
+
 MANIFEST = {
-    "text": "Coq theorems (Properties_C15_ytext.v): the predicate literal lyd_path() prints for a key / leaf-list value is read "
+    "text": "Coq theorems (Properties_C15_pathmodel.v) about the executable model PathModel.v of the WHOLE round trip, for "
+            "ALL well-formed trees and every node: lyd_path() prints a path that the tokenizer, ly_path_parse() and "
+            "ly_path_compile() (target single and many) accept, ly_path_eval_partial() returns exactly that node "
+            "(C15_pathmodel_roundtrip_stages / _find_own); lyd_new_path() with that path and value on the empty tree creates "
+            "exactly the spine - the node and its ancestors, list instances with their keys (_new_empty, top-level position "
+            "1); on the tree itself it reports LY_EEXIST for every node, nothing created (_new_exists; default = empty "
+            "non-presence containers: success, nothing created). Hypotheses are boolean predicates (swf, dwf, quotes_ok) that "
+            "every generated tree is checked to satisfy; the both-quotes hypothesis and the top-level-position hypothesis are "
+            "shown necessary by refutation theorems with witnesses. Tie (T2 pathmodel): extracted model vs libyang on "
+            "generated two-module schemas (augments, equal local names, 1-3 keys, key-less lists, state leaf-lists with "
+            "duplicates, nested lists, choices, RPC input / output, notifications) and trees: lyd_path() of EVERY node byte "
+            "for byte; ly_path_parse() accept / reject, lyd_find_path() result (node, partial match, not found, error) and "
+            "lyd_new_path2() result (created chain and attach point, LY_EEXIST, LY_EINVAL, LY_EVALID) on the printed and on "
+            "mutated paths (dropped / duplicated / reordered key predicates, wrong / missing / redundant prefixes, positions "
+            "0 / out of range / 2^32, predicates on the wrong node kind, numbers for literals, white space, trailing garbage, "
+            "foreign XPath tokens). "
+            "Coq theorems (Properties_C15_ytext.v): the predicate literal lyd_path() prints for a key / leaf-list value is read "
             "back as exactly that value by the path parser and by the XPath literal rule, for every value not containing both quote "
             "characters (refuted with a witness otherwise). Tie: extracted model vs lyd_path/lyd_find_path/lyd_find_xpath (T2). "
             "Every node of generated trees: path -> find_path/find_xpath returns exactly the node, new_path rebuilds the spine, "
@@ -22,7 +47,19 @@ MANIFEST = {
             "notification trees over schemas with adversarial identifier shapes and two modules with equal local names, with "
             "duplicates where they are legal and typed keys in non-canonical spelling; lyd_path() compared with an independent "
             "rendering of the path; whole tree rebuilt from its paths.",
-    "note": "Modelled C: lyd_path_list_predicate/leaflist_predicate quoting, literal scanning of lyxp_expr_parse and "
-            "ly_path_compile_predicate. Path compilation/evaluation beyond literals is covered by the oracle only.",
+    "note": "Modelled C (ytext): lyd_path_list_predicate/leaflist_predicate quoting, literal scanning of lyxp_expr_parse and "
+            "ly_path_compile_predicate. Modelled C (pathmodel): lyd_path(LYD_PATH_STD) with lyd_list_pos(), the tokens of "
+            "lyxp_expr_parse() that ly_path_parse() can consume (any other token or tokenizer error = reject), ly_path_parse / "
+            "ly_path_check_predicate (PREFIX_FIRST, PRED_SIMPLE, duplicate-key test as coded), _ly_path_compile / "
+            "ly_path_compile_snode / ly_path_compile_predicate, ly_path_eval_partial with lyd_find_sibling_first / "
+            "lyd_compare_single list identity, lyd_new_path_ with lyd_new_path_check_find_lypath and lyd_create_list. "
+            "Restrictions of pathmodel: every key, leaf-list and leaf is of type string (the model has NO canonicalisation; "
+            "typed keys in non-canonical spelling are covered by the oracle paths-ops only); absolute paths; no XPath "
+            "variables; bytes above 127 only inside literals (the model of parse_ncname is ASCII); anydata created with the "
+            "empty value only, anyxml not generated; LYD_DEFAULT only as it arises in parsed trees (empty non-presence "
+            "containers); for creation in a non-empty tree only the created chain and its attach point are modelled, not the "
+            "sibling position lyd_insert_node() gives it; lyd_find_xpath() is not part of the model (oracles paths / "
+            "paths-ops check it). 32-bit wrap of lyd_list_pos and atoi() truncation are modelled; the theorems assume fewer "
+            "than 2^31 siblings.",
     "technique": "Coq proof (quote/unquote round trip) + differential correspondence + API oracle on every node",
 }
